@@ -6,7 +6,7 @@
 const char *op_kind_name[] = {"create", "open", "close", "abort", "redef", "enddef", "_enddef", "begin_indep", "end_indep", "sync", "sync_numrecs", "flush",
                               "syncpoint", "barrier", "checkpoint", "def_dim", "def_var", "def_var_fill", "set_fill", "fill_var_rec", "put_att", "del_att",
                               "rename_att", "copy_att", "rename_dim", "rename_var", "put", "get", "iput", "iget", "bput", "wait", "cancel", "attach", "detach",
-                              "inq", "badid", "delete", "set_default_format", "probe", "openprobe", "bigcase"};
+                              "inq", "badid", "delete", "set_default_format", "probe", "openprobe", "bigcase", "manyfiles"};
 
 int nc_type_size(int t) {
     switch (t) { case NC_BYTE: case NC_CHAR: case NC_UBYTE: return 1; case NC_SHORT: case NC_USHORT: return 2; case NC_INT: case NC_FLOAT: case NC_UINT: return 4;
@@ -310,7 +310,7 @@ static bool model_step_inner(Model &m, Op &op) {
     op.snap.reset(); op.msnap.reset(); op.exp_nreqs.clear(); op.exp_usage.clear();
     if (op.kind == OP_BARRIER) { m.pending_reads.clear(); bb_ordered(m); return true; }
     if (op.kind == OP_BADID) { op.exp_rc = NC_EBADID; return true; }
-    if (op.kind == OP_OPENPROBE || op.kind == OP_BIGCASE) { op.rc_any = true; return true; }   // open an arbitrary byte image: handled entirely by the interpreter   // a call on an id that is not open: always applicable
+    if (op.kind == OP_OPENPROBE || op.kind == OP_BIGCASE || op.kind == OP_MANYFILES) { op.rc_any = true; return true; }   // open an arbitrary byte image: handled entirely by the interpreter   // a call on an id that is not open: always applicable
     if (op.kind == OP_CHECKPOINT) {
         m.pending_reads.clear(); bb_ordered(m);
         if (op.a[0] == 1) { if (op.file < 0 || op.file >= (int)m.files.size() || !m.files[op.file].open || !m.files[op.file].in_redef) { op.skip = true; return false; } m.snap_state[op.file] = 1; op.name = m.files[op.file].path; }
@@ -501,6 +501,26 @@ static bool model_step_inner(Model &m, Op &op) {
         size_t i = (size_t)(((op.a[0] % (long long)l->size()) + l->size()) % l->size());
         if ((*l)[i].name == "_FillValue") return skip();
         op.name = (*l)[i].name; l->erase(l->begin() + i); return true;
+    }
+    case OP_COPY_ATT: {   // file/var = source, a[0] = destination file slot, a[1] = destination variable (-1 global), a[2] = index of the attribute in the source list
+        if (!f.open) return skip();
+        int ds = (int)op.a[0]; if (ds < 0 || ds >= (int)m.files.size()) return skip();
+        MFile &g = m.files[ds]; if (!g.open || g.readonly) return skip();
+        int sv = -1, dv = -1;
+        if (op.var >= 0) { sv = resolve_var(f, op.var); if (sv < 0) return skip(); }
+        if (op.a[1] >= 0) { dv = resolve_var(g, (int)op.a[1]); if (dv < 0) return skip(); }
+        std::vector<MAtt> *sl = sv >= 0 ? &f.vars[sv].atts : &f.gatts, *dl = dv >= 0 ? &g.vars[dv].atts : &g.gatts;
+        if (sl->empty()) return skip();
+        size_t i = (size_t)(((op.a[2] % (long long)sl->size()) + sl->size()) % sl->size());
+        MAtt src = (*sl)[i];
+        if (src.name == "_FillValue" || !type_ok_for_format(src.type, g.format)) return skip();
+        op.var = sv; op.a[1] = dv; op.name = src.name;
+        if (sl == dl) return true;   // copying an attribute onto itself changes nothing
+        MAtt *d = find_att(*dl, src.name);
+        auto pad4 = [](long long x) { return (x + 3) / 4 * 4; };
+        if (g.mode != FM_DEFINE) { if (!d || g.mode == FM_INDEP) return skip(); if (pad4((long long)src.v.size() * nc_type_size(src.type)) > pad4((long long)d->v.size() * nc_type_size(d->type))) return skip(); }
+        if (!d) dl->push_back(src); else *d = src;
+        return true;
     }
     case OP_RENAME_ATT: {
         if (!f.open || f.readonly || nm2.empty()) return skip();
